@@ -146,6 +146,14 @@ def parse_export(text):
             o.fre, o.fim = fr_of_dhex(t[j + 8]), fr_of_dhex(t[j + 9])
             o.dre_tok, o.dim_tok = t[j + 11], t[j + 12]
             (r.roots if ln.startswith("ROOT ") else r.acca).append(o)
+        elif ln.startswith("MVX "):
+            # every stored limb of mvalue (the M field of ROOT is rounded to the digits the precision warrants)
+            t = ln.split()
+            def _x(tok):
+                h, e = tok.split(":"); m = int(h, 16); e = int(e)
+                return Fr(m * (1 << e)) if e >= 0 else Fr(m, 1 << (-e))
+            for o in r.roots:
+                if o.i == int(t[1]): o.re_exact, o.im_exact = _x(t[2]), _x(t[3])
         elif ln.startswith("ACCM "):
             t = ln.split(); o = Root(); o.i = int(t[1])
             o.re, o.prec = fr_of_mpf(t[2]); o.im, _ = fr_of_mpf(t[3]); o.rad_tok = t[4]; o.rad = fr_of_rdpe(t[4])
